@@ -14,6 +14,7 @@
 package engine
 
 import (
+	"fmt"
 	"sync"
 	"sync/atomic"
 )
@@ -302,6 +303,11 @@ func HookYield(site string, obj interface{}) {
 	s := active
 	if s == nil || s.cur == nil {
 		Ref.Yields++
+		if Ref.Funcs != nil && site == "call.setname" && obj != nil {
+			if n, ok := obj.(interface{ Name() string }); ok {
+				Ref.Funcs[n.Name()]++
+			}
+		}
 		return
 	}
 	s.cur.Yield(site, obj)
@@ -595,7 +601,13 @@ var lastMu *sync.RWMutex
 
 // Ref counts hook calls made while no simulation is running (the controller
 // evaluating a reference alone). Only the controller touches it.
-var Ref struct{ Steps, Yields int }
+var Ref struct {
+	Steps, Yields int
+	// coverage of the reference evaluations (every triple a task evaluates
+	// is also evaluated here): node types evaluated, callables called
+	NodeTypes map[string]int
+	Funcs     map[string]int
+}
 
 // AbortError is the error injected by an `abort` fault.
 type AbortError struct{ Task, Op, Step int }
@@ -616,10 +628,13 @@ var IsLiteral func(node interface{}) bool
 //
 //go:norace
 func HookStep(node interface{}) error {
+	s := active
+	if Ref.NodeTypes != nil && (s == nil || s.cur == nil) {
+		Ref.NodeTypes[fmt.Sprintf("%T", node)]++
+	}
 	if IsLiteral != nil && IsLiteral(node) {
 		return nil
 	}
-	s := active
 	if s == nil || s.cur == nil {
 		Ref.Steps++
 		return nil
